@@ -257,6 +257,8 @@ func CanonVal(v val.Value) string {
 		return fmt.Sprintf("bytes:%x", x.Value())
 	case val.NotEmptyType:
 		return "empty"
+	case val.Any:
+		return CanonAny(x.Thing)
 	}
 	if v.Format() == val.FmtEmpty {
 		return "empty"
@@ -264,11 +266,48 @@ func CanonVal(v val.Value) string {
 	return CanonRaw(v.Value())
 }
 
+// CanonAny renders the content of an anydata: its JSON text with sorted members and numbers in
+// their shortest form (what the content is, whatever Go types hold it).
+func CanonAny(thing interface{}) string {
+	b, err := json.Marshal(thing)
+	if err != nil {
+		return fmt.Sprintf("any:?%v", err)
+	}
+	var generic interface{}
+	d := json.NewDecoder(strings.NewReader(string(b)))
+	d.UseNumber()
+	if err := d.Decode(&generic); err != nil {
+		return "any:?" + string(b)
+	}
+	var norm func(x interface{}) interface{}
+	norm = func(x interface{}) interface{} {
+		switch t := x.(type) {
+		case json.Number:
+			if f, err := t.Float64(); err == nil {
+				return json.Number(fmtFloat(f))
+			}
+		case map[string]interface{}:
+			for k, v := range t {
+				t[k] = norm(v)
+			}
+		case []interface{}:
+			for i, v := range t {
+				t[i] = norm(v)
+			}
+		}
+		return x
+	}
+	out, _ := json.Marshal(norm(generic))
+	return "any:" + string(out)
+}
+
 // CanonRaw renders a raw Go value found in a library store.
 func CanonRaw(x interface{}) string {
 	switch t := x.(type) {
 	case nil:
 		return "<nil>"
+	case map[string]interface{}, []interface{}:
+		return CanonAny(t)
 	case val.Value:
 		return CanonVal(t)
 	case string:
@@ -327,6 +366,8 @@ func jsonScalar(v val.Value) interface{} {
 		return string(x)
 	case val.NotEmptyType:
 		return []interface{}{nil}
+	case val.Any:
+		return x.Thing
 	}
 	if v.Format() == val.FmtEmpty {
 		return []interface{}{nil}
